@@ -29,7 +29,7 @@ def enumerate_family(cfgs, relax=(), name='MC', simulate=None, depth=None, seed=
         lines = ['SPECIFICATION Spec', 'CONSTANT Configs <- MCConfigs', 'CONSTANT Relax <- MCRelax',
                  'CONSTRAINT Emit', 'CHECK_DEADLOCK FALSE']
         lines += ['INVARIANT ' + i for i in invariants]
-        defs['MCCfgOK'] = '\\A c \\in MCConfigs : CfgOK(c)'
+        defs['MCCfgOK'] = '\\A c \\in MCConfigs : CfgOK(c) /\\ GroupPricesOK(c)'
         tlc.write_mc(wd, name, 'EAOModel', defs, lines)
         with open(os.path.join(wd, name + '.tla')) as f:
             txt = f.read()
